@@ -1163,6 +1163,24 @@ class Interpreter(BaseInterpreter[TContext, TEvent]):
             raise  # Re-raise to ensure the task is marked as cancelled.
 
         except Exception as e:
+            # 🧟 A failure that surfaces while this task is being cancelled
+            #    (the invoking state was left, or the interpreter stopped, and
+            #    the service's own cleanup raised) belongs to an activation
+            #    that is over: like its result, it is discarded. Reporting it
+            #    failed the whole machine from a state it had already left.
+            task = asyncio.current_task()
+            cancelling = getattr(task, "cancelling", None)
+            if (cancelling is not None and cancelling()) or (
+                invocation.source not in self._active_state_nodes
+            ):
+                logger.debug(
+                    "🚫 Service '%s' (ID: '%s') failed while being "
+                    "cancelled: %s",
+                    invocation.src,
+                    invocation.id,
+                    e,
+                )
+                return
             # 💥 Service raised an unhandled exception.
             logger.error(
                 "💥 Service '%s' (ID: '%s') failed: %s",
